@@ -5,6 +5,9 @@ import PyIpmi.Props.C12
 #print axioms PyIpmi.Props.C12.get_entry_exact
 #print axioms PyIpmi.Props.C12.entries_exact
 #print axioms PyIpmi.Props.C12.truncating_device_read_exactly
+#print axioms PyIpmi.Props.C12.entries_exact_after_history
+#print axioms PyIpmi.Props.C12.get_entry_exact_after_history
+#print axioms PyIpmi.Props.C12.get_and_clear_after_history
 #print axioms PyIpmi.Props.C12.empty_log_nothing
 #print axioms PyIpmi.Props.C12.get_and_clear_atomic
 #print axioms PyIpmi.Props.C12.get_and_clear_repeats_both_steps
